@@ -11,7 +11,7 @@ mkdir -p $OUT; cp $DEL/patch.diff $OUT/patch.diff; cp $DEL/demo_seed.rs $OUT/dem
 cp $DEL/demo_seed.rs $W/examples/demo_seed.rs
 cd $W
 echo "== demo WITHOUT change"; cargo run --offline --example demo_seed >$OUT/demo_without.log 2>&1; R0=$?; tail -n 3 $OUT/demo_without.log
-git apply $OUT/patch.diff || { echo "PATCH DOES NOT APPLY"; git -C /repo worktree remove --force $W; exit 2; }
+git apply $OUT/patch.diff || git apply -C1 $OUT/patch.diff || { echo "PATCH DOES NOT APPLY"; git -C /repo worktree remove --force $W; exit 2; }
 echo "== tests WITH change"; cargo test --offline --workspace --lib >$OUT/tests_with.log 2>&1; RT=$?; grep -E '^test result' $OUT/tests_with.log | head -3
 echo "== demo WITH change"; cargo run --offline --example demo_seed >$OUT/demo_with.log 2>&1; R1=$?; tail -n 4 $OUT/demo_with.log
 echo "demo_without_exit=$R0 tests_with_exit=$RT demo_with_exit=$R1"
